@@ -649,7 +649,9 @@ Proof.
     + intros k m. apply lex_single. exact H1.
   - apply andb_true_iff in H as [Hp Hg]. specialize (IH Hg). destruct IH as [(l & L & E & Hnl) IH].
     assert (EL : L = []) by (destruct g; try discriminate; simpl in E; inversion E; reflexivity).
-    subst L. unfold lex_ok. simpl. rewrite E. simpl. split.
+    subst L.
+    assert (EU : unp (FNot g) = [lit "not" ++ 40 :: (l ++ [41])]) by (simpl; rewrite E; reflexivity).
+    unfold lex_ok. rewrite EU. split.
     + eexists; eexists; split; [reflexivity|].
       apply (nas_word_delim (lit "not") 40 (l ++ [41])); [reflexivity | reflexivity | discriminate].
     + intros n m. apply lex_single.
